@@ -90,12 +90,15 @@ type source struct {
 	rngPool  []string
 }
 
-var c02Sources = []source{
-	{"", "h", append(append([]string{}, ixHashPool...), "zz"), "r", ixRangePool},
-	{"gsi1", "g", []string{"x", "y", "zz"}, "", nil},
-	{"gsi2", "g", []string{"x", "y", "zz"}, "s", ixSPool},
-	{"lsi1", "h", append(append([]string{}, ixHashPool...), "zz"), "s", ixSPool},
-	{"gsi4", "r", []string{"1", "10", "a", "zz"}, "h", ixHashPool},
+// c02Sources lists the readable sources of the shared table shape with the CURRENT value pools.
+func c02Sources() []source {
+	return []source{
+		{"", "h", append(append([]string{}, ixHashPool...), "zz"), "r", ixRangePool},
+		{"gsi1", "g", append(append([]string{}, ixGPool...), "zz"), "", nil},
+		{"gsi2", "g", append(append([]string{}, ixGPool...), "zz"), "s", ixSPool},
+		{"lsi1", "h", append(append([]string{}, ixHashPool...), "zz"), "s", ixSPool},
+		{"gsi4", "r", []string{ixRangePool[0], ixRangePool[1], ixRangePool[3], "zz"}, "h", ixHashPool},
+	}
 }
 
 var sortConds = []string{"none", "=", "<", "<=", ">", ">=", "between", "begins"}
@@ -113,7 +116,16 @@ func sortKeyCond(kind, attr string, pool []string, r *rand.Rand, values val.Item
 		values[":lo"], values[":hi"] = val.Str(a), val.Str(b)
 		return &refmodel.Cond{Op: "between", Args: []refmodel.Operand{p, {Kind: "val", Val: ":lo"}, {Kind: "val", Val: ":hi"}}}
 	case "begins":
-		values[":pre"] = val.Str(mon.Pick(r, []string{"1", "a", "ab", "9", "b"}))
+		pres := []string{"1", "a", "ab", "9", "b"}
+		if ixBig {
+			// prefixes of the scaled pools: a whole pool member, all but its last byte, a 64-byte prefix of the long ones
+			m := mon.Pick(r, pool)
+			pres = append(pres, m, m[:len(m)-1], "é", "é1")
+			if len(m) > 64 {
+				pres = append(pres, m[:64])
+			}
+		}
+		values[":pre"] = val.Str(mon.Pick(r, pres))
 		return &refmodel.Cond{Op: "begins", Args: []refmodel.Operand{p, {Kind: "val", Val: ":pre"}}}
 	}
 	values[":sk"] = val.Str(mon.Pick(r, append(append([]string{}, pool...), "5", "aa")))
@@ -177,8 +189,12 @@ func sizeClass(n int) string {
 		return "1"
 	case n < 4:
 		return "2-3"
+	case n < 17:
+		return "4-16"
+	case n < 65:
+		return "17-64"
 	}
-	return "4+"
+	return "65+"
 }
 
 func (p *c02) RunCase(ctx *runner.Ctx) runner.CaseResult {
@@ -190,7 +206,14 @@ func (p *c02) RunCase(ctx *runner.Ctx) runner.CaseResult {
 		return x.r
 	}
 	spec := ixSpec("tbl02", true)
-	cl, m, hist, ok := buildState(r, adapter, spec, 15+r.Intn(30), ctx, x)
+	nWrites := 15 + r.Intn(30)
+	if ctx.Case%20 == 7 {
+		// scaled state: hundreds of writes over 40-260 sort keys per partition (see useBigPools)
+		defer useBigPools(r)()
+		nWrites = 2*len(ixRangePool) + r.Intn(60)
+		x.r.Counters["scaled_states"]++
+	}
+	cl, m, hist, ok := buildState(r, adapter, spec, nWrites, ctx, x)
 	if !ok {
 		return x.r
 	}
@@ -224,9 +247,10 @@ func (p *c02) RunCase(ctx *runner.Ctx) runner.CaseResult {
 			nt = part > len(got.Items)
 		}
 		x.fp(nt, "%s|%s|%s", adapter, fpKind, sizeClass(len(got.Items)))
+		x.set("result_size_classes", sizeClass(len(got.Items)))
 		return true
 	}
-	for _, src := range c02Sources {
+	for _, src := range c02Sources() {
 		for _, hv := range src.hashPool {
 			kinds := sortConds
 			if src.rngAttr == "" {
